@@ -598,7 +598,16 @@ func (g *vcgen) havocNamed(n string) {
 		nv := g.havocVar(n)
 		g.assume(fmt.Sprintf("(>= %s %s)", nv, old))
 	default:
-		g.havocVar(n)
+		old := g.get(g.st, n)
+		nv := g.havocVar(n)
+		if strings.HasPrefix(n, "P.") && strings.HasPrefix(g.varSort[n], "(Array Int ") && len(g.localCells) > 0 && !g.inClosureCall {
+			// local variables captured only by this function's own closures cannot be reached by other code
+			term := nv
+			for _, c := range g.localCells {
+				term = fmt.Sprintf("(store %s %s (select %s %s))", term, c, old, c)
+			}
+			g.st.m[n] = g.define(n, g.varSort[n], term)
+		}
 	}
 }
 
@@ -740,6 +749,16 @@ func (g *vcgen) special(v ssa.Value, fn *ssa.Function, args []string, c *ssa.Cal
 }
 
 func (g *vcgen) applyFunc(v ssa.Value, fn *ssa.Function, args []string, binds []string, c *ssa.CallCommon) []string {
+	if c != nil {
+		saved := g.curCall
+		g.curCall = c
+		defer func() { g.curCall = saved }()
+	}
+	if fn.Parent() == g.fn && len(binds) > 0 {
+		// one of this function's own closures: it may write the variables it captured
+		g.inClosureCall = true
+		defer func() { g.inClosureCall = false }()
+	}
 	if res, ok := g.special(v, fn, args, c); ok {
 		return res
 	}
@@ -760,9 +779,27 @@ func (g *vcgen) applyFunc(v ssa.Value, fn *ssa.Function, args []string, binds []
 		}
 		return g.freshResults(fn.Signature)
 	}
-	g.havocEffectsOf(g.eng.FuncEffects(fn), shortName(FullName(fn)))
+	g.havocEffectsOf(g.callSiteEffects(fn, c), shortName(FullName(fn)))
 	g.noteUncontracted(FullName(fn))
 	return g.freshResults(fn.Signature)
+}
+
+// callSiteEffects: the summary of fn plus the effects of the closures passed for its call-only function parameters
+func (g *vcgen) callSiteEffects(fn *ssa.Function, c *ssa.CallCommon) *Effects {
+	base := g.eng.FuncEffects(fn)
+	if c == nil {
+		c = g.curCall
+	}
+	if c == nil {
+		return base
+	}
+	extra := newEffects()
+	g.eng.argClosures(fn, c, func(f *ssa.Function) { extra.add(g.eng.FuncEffects(f)) }, func() { extra.All = true })
+	if !extra.All && len(extra.Vars) == 0 {
+		return base
+	}
+	extra.add(base)
+	return extra
 }
 
 // frameAllowsVar: may the function under verification write (anywhere in) state variable n?
@@ -848,7 +885,7 @@ func (g *vcgen) applyWrapper(fn *ssa.Function, args []string) ([]string, bool) {
 	if fc := g.eng.ContractOf(target); fc != nil {
 		return g.applyContract(fc, target, target.Signature, targs, nil, FullName(target)), true
 	}
-	g.havocEffects(g.eng.FuncEffects(target))
+	g.havocEffects(g.callSiteEffects(target, nil))
 	g.noteUncontracted(FullName(target))
 	return g.freshResults(target.Signature), true
 }
@@ -887,7 +924,7 @@ func (g *vcgen) contractEnv(fc *FuncContract, fn *ssa.Function, sig *types.Signa
 				// captured variables are cells: expose the current content under the variable's name and the cell as name$cell
 				if pt, ok := fv.Type().Underlying().(*types.Pointer); ok {
 					vars[fv.Name()+"$cell"] = cval{term: binds[k], typ: fv.Type(), sort: "Int"}
-					vars[fv.Name()] = cval{term: g.loadPtr(cur, binds[k], pt.Elem()), typ: pt.Elem(), sort: g.s.sortOf(pt.Elem())}
+					vars[fv.Name()] = cval{term: g.loadPtr(cur, binds[k], pt.Elem()), typ: pt.Elem(), sort: g.s.sortOf(pt.Elem()), cell: binds[k]}
 				} else {
 					vars[fv.Name()] = cval{term: binds[k], typ: fv.Type(), sort: g.s.sortOf(fv.Type())}
 				}
@@ -989,7 +1026,7 @@ func (g *vcgen) applyContract(fc *FuncContract, fn *ssa.Function, sig *types.Sig
 			}
 		}
 	} else if fn != nil && fn.Blocks != nil && g.eng.InModule(fn) {
-		g.havocEffectsOf(g.eng.FuncEffects(fn), calleeShort)
+		g.havocEffectsOf(g.callSiteEffects(fn, nil), calleeShort)
 	} else {
 		g.stateVar("G.alloc", "Int")
 		g.havocNamed("G.alloc")
@@ -1009,6 +1046,15 @@ func (g *vcgen) applyContract(fc *FuncContract, fn *ssa.Function, sig *types.Sig
 	}
 	if fc.Assumed {
 		g.noteAssumption("assumed contract: " + calleeName)
+	}
+	// visible-state semantics of type invariants: the objects handed to a verified function satisfy their
+	// type's invariant again when it returns (the callee's own unit proves it for every type it stores into)
+	if fn != nil && fn.Blocks != nil && g.eng.InModule(fn) && !fc.Assumed {
+		for i, p := range fn.Params {
+			if i < len(args) {
+				g.assumeTypeInvOn(args[i], p.Type())
+			}
+		}
 	}
 	return results
 }
@@ -1337,7 +1383,7 @@ func (g *vcgen) invoke(v ssa.Value, c *ssa.CallCommon, args []string) []string {
 			if isPointerLike(t) {
 				recvArg = fmt.Sprintf("(ival %s)", recv)
 			} else {
-				recvArg = g.unbox(t, fmt.Sprintf("(ival %s)", recv))
+				recvArg = g.unboxIface(t, recv)
 			}
 			res = g.applyFunc(v, fn, append([]string{recvArg}, args...), nil, c)
 		}
@@ -1671,6 +1717,200 @@ func (e *Engine) eventsFor(c *ssa.CallCommon) []*EventDecl {
 		}
 	}
 	return out
+}
+
+type eventSig struct {
+	args []types.Type // a0 = receiver for methods and interface calls
+	ret  types.Type
+}
+
+// eventSig: argument and result types of the calls that emit the event (taken from the first call site in the module)
+func (e *Engine) eventSig(name string) *eventSig {
+	if e.eventSigs == nil {
+		e.eventSigs = map[string]*eventSig{}
+		for _, fn := range e.AllFuncs {
+			if fn.Blocks == nil || !e.InModule(fn) {
+				continue
+			}
+			for _, b := range fn.Blocks {
+				for _, ins := range b.Instrs {
+					ci, ok := ins.(ssa.CallInstruction)
+					if !ok {
+						continue
+					}
+					c := ci.Common()
+					for _, ev := range e.eventsFor(c) {
+						if _, done := e.eventSigs[ev.Name]; done {
+							continue
+						}
+						sg := &eventSig{}
+						if c.IsInvoke() {
+							sg.args = append(sg.args, c.Value.Type())
+						}
+						for _, a := range c.Args {
+							sg.args = append(sg.args, a.Type())
+						}
+						if c.Signature().Results().Len() > 0 {
+							sg.ret = c.Signature().Results().At(0).Type()
+						}
+						e.eventSigs[ev.Name] = sg
+					}
+				}
+			}
+		}
+	}
+	if sg, ok := e.eventSigs[name]; ok {
+		return sg
+	}
+	// no call site (left) in the module: take the signature from the declaration the event names
+	ev := e.DB.Events[name]
+	if ev == nil {
+		return nil
+	}
+	match := func(full string) bool {
+		return ev.Callee == full || strings.HasSuffix(full, "."+ev.Callee) || strings.HasSuffix(full, "/"+ev.Callee)
+	}
+	var found *eventSig
+	for _, p := range e.AllPkgs {
+		if found != nil {
+			break
+		}
+		sc := p.Types.Scope()
+		for _, n := range sc.Names() {
+			tn, ok := sc.Lookup(n).(*types.TypeName)
+			if !ok {
+				continue
+			}
+			it, ok := tn.Type().Underlying().(*types.Interface)
+			if !ok {
+				continue
+			}
+			for i := 0; i < it.NumMethods(); i++ {
+				m := it.Method(i)
+				if match(ifaceMethodKey(tn.Type(), m.Name())) {
+					sig := m.Type().(*types.Signature)
+					sg := &eventSig{args: []types.Type{tn.Type()}}
+					for k := 0; k < sig.Params().Len(); k++ {
+						sg.args = append(sg.args, sig.Params().At(k).Type())
+					}
+					if sig.Results().Len() > 0 {
+						sg.ret = sig.Results().At(0).Type()
+					}
+					found = sg
+				}
+			}
+		}
+	}
+	if found == nil {
+		for _, fn := range e.AllFuncs {
+			if match(FullName(fn)) {
+				sg := &eventSig{}
+				for _, prm := range fn.Params {
+					sg.args = append(sg.args, prm.Type())
+				}
+				if fn.Signature.Results().Len() > 0 {
+					sg.ret = fn.Signature.Results().At(0).Type()
+				}
+				found = sg
+				break
+			}
+		}
+	}
+	e.eventSigs[name] = found
+	return found
+}
+
+// declareEventVars registers the ghost variables of every event that a call in this function can emit, so that
+// invariants at a loop head may mention events that only occur further down in the body
+func (g *vcgen) declareEventVars() {
+	// events the function's own contract talks about (they may occur only inside callees)
+	if g.fc != nil {
+		seen := map[string]bool{}
+		var visit func(e *CExpr)
+		visit = func(e *CExpr) {
+			if e == nil {
+				return
+			}
+			if e.Op == "id" {
+				if _, isEv := g.eng.DB.Events[e.Name]; isEv && !seen[e.Name] {
+					seen[e.Name] = true
+					g.eventVars(e.Name)
+					if sig := g.eng.eventSig(e.Name); sig != nil {
+						if g.argTypes == nil {
+							g.argTypes = map[string]types.Type{}
+						}
+						if g.retTypes == nil {
+							g.retTypes = map[string]types.Type{}
+						}
+						if g.eng.DB.Events[e.Name].Ret {
+							if sig.ret != nil {
+								g.stateVar("G.ret."+e.Name, g.s.sortOf(sig.ret))
+								g.stateVar("G.fret."+e.Name, g.s.sortOf(sig.ret))
+								g.retTypes[e.Name] = sig.ret
+							}
+						} else {
+							for k, t := range sig.args {
+								an := fmt.Sprintf("G.arg.%s.%d", e.Name, k)
+								g.stateVar(an, g.s.sortOf(t))
+								g.argTypes[an] = t
+							}
+						}
+					}
+				}
+			}
+			for _, a := range e.Args {
+				visit(a)
+			}
+		}
+		for _, c := range g.fc.Requires {
+			visit(c.Expr)
+		}
+		for _, c := range g.fc.Ensures {
+			visit(c.Expr)
+		}
+		for _, cs := range g.fc.Loops {
+			for _, c := range cs {
+				visit(c.Expr)
+			}
+		}
+	}
+	for _, b := range g.fn.Blocks {
+		for _, ins := range b.Instrs {
+			ci, ok := ins.(ssa.CallInstruction)
+			if !ok {
+				continue
+			}
+			c := ci.Common()
+			for _, ev := range g.eng.eventsFor(c) {
+				g.eventVars(ev.Name)
+				if ev.Ret {
+					if c.Signature().Results().Len() > 0 {
+						rt := c.Signature().Results().At(0).Type()
+						g.stateVar("G.ret."+ev.Name, g.s.sortOf(rt))
+						g.stateVar("G.fret."+ev.Name, g.s.sortOf(rt))
+						if g.retTypes == nil {
+							g.retTypes = map[string]types.Type{}
+						}
+						g.retTypes[ev.Name] = rt
+					}
+					continue
+				}
+				var vals []ssa.Value
+				if c.IsInvoke() {
+					vals = append(vals, c.Value)
+				}
+				vals = append(vals, c.Args...)
+				if g.argTypes == nil {
+					g.argTypes = map[string]types.Type{}
+				}
+				for k, v := range vals {
+					an := fmt.Sprintf("G.arg.%s.%d", ev.Name, k)
+					g.stateVar(an, g.s.sortOf(v.Type()))
+					g.argTypes[an] = v.Type()
+				}
+			}
+		}
+	}
 }
 
 func (g *vcgen) emitEvents(c *ssa.CallCommon, args []string, results []string, ret bool) {
